@@ -12,7 +12,7 @@ ALLOWED = ('RINGSyntaxError', 'RINGReaderError', 'NotImplementedError')
 
 def gen_texts(ctx):
     rng = ctx.rng
-    texts = list(ringgen.FIXED) + list(ringgen.RULES) + list(ringgen.BIMOLECULAR) + list(ringgen.BIGNUM)
+    texts = list(ringgen.FIXED) + list(ringgen.RULES) + list(ringgen.BIMOLECULAR) + list(ringgen.BIGNUM) + list(ringgen.DEEP)
     hist = {'fixed': len(texts)}
     valid = [ringgen.fragment(rng, unsupported=rng.random() < 0.2, collide=rng.random() < 0.12) for _ in range(ctx.n(500, 15000))]
     hist['generated'] = len(valid)
